@@ -348,6 +348,7 @@ def run_check(prop: Prop, tier: str, seed: int) -> int:
             "search_after_break_inputs": searched,
             "proof_step": {k: v for k, v in proof.items() if k not in ("theorems",)},
             "impl_s": round(t_impl - t0, 2),
+            **(prop.extra_counts(cases, observations) if hasattr(prop, "extra_counts") else {}),
         },
         "assumptions": [
             "model reads Python semantics as listed in DESIGN.md 3.2 / Appendix C",
